@@ -19,6 +19,7 @@ import (
 	"github.com/buzzfeed/sso/internal/proxy"
 	"github.com/buzzfeed/sso/verifharness/sut"
 	"github.com/buzzfeed/sso/verifharness/vh"
+	yaml "gopkg.in/yaml.v2"
 )
 
 // ---------------------------------------------------------------------------------------------
@@ -290,8 +291,16 @@ func invariants(a *proxy.UpstreamConfig, full bool) [][2]string {
 	}
 	switch r := a.Route.(type) {
 	case *proxy.SimpleRoute:
-		if r == nil || r.FromURL == nil || r.ToURL == nil || r.FromURL.Host == "" || r.ToURL.Host == "" {
-			out = append(out, [2]string{"invariant: simple-route-not-usable", fmt.Sprintf("simple route without from/to host: %+v", r)})
+		if r == nil || r.FromURL == nil || r.ToURL == nil {
+			out = append(out, [2]string{"invariant: simple-route-not-usable", fmt.Sprintf("simple route without from/to URL: %+v", r)})
+		} else {
+			// a simple route matches the request Host against `from` and proxies to the host of `to`
+			if r.FromURL.Hostname() == "" {
+				out = append(out, [2]string{"invariant: simple-route-without-host field=from", fmt.Sprintf("from %q was accepted and resolved to the URL %q, which names no host", a.RouteConfig.From, r.FromURL.String())})
+			}
+			if r.ToURL.Hostname() == "" {
+				out = append(out, [2]string{"invariant: simple-route-without-host field=to", fmt.Sprintf("to %q was accepted and resolved to the URL %q, which names no host", a.RouteConfig.To, r.ToURL.String())})
+			}
 		}
 		if a.RouteConfig.Type != "" && a.RouteConfig.Type != "simple" {
 			out = append(out, [2]string{"invariant: route-type-not-honoured", fmt.Sprintf("type %q resolved to a simple route", a.RouteConfig.Type)})
@@ -425,6 +434,41 @@ func matchUpstreams(exp []*refUp, act []*proxy.UpstreamConfig) []int {
 	return assign
 }
 
+// panicInputClass names the class of input that made the loader panic, from the document alone.
+func panicInputClass(dc *docCase) string {
+	var doc []interface{}
+	if yaml.Unmarshal([]byte(subst(dc.YAML, dc.Vars)), &doc) != nil {
+		return "unparseable-document"
+	}
+	cls := "other"
+	for _, sv := range doc {
+		if sv == nil {
+			return "null-service-entry"
+		}
+		svc, ok := asMap(sv)
+		if !ok {
+			continue
+		}
+		for _, bv := range svc {
+			blk, ok := asMap(bv)
+			if !ok {
+				continue
+			}
+			if l, ok := blk["extra_routes"].([]interface{}); ok {
+				for _, e := range l {
+					if e == nil {
+						return "null-extra-route-entry"
+					}
+				}
+			}
+			if _, has := blk["hmacauth"]; has {
+				cls = "undocumented-key-hmacauth"
+			}
+		}
+	}
+	return cls
+}
+
 // evaluate judges one loader outcome.
 func evaluate(rep *vh.Report, stream, path string, dc *docCase, ups []*proxy.UpstreamConfig, lerr error, pan interface{}, full bool) {
 	rep.Eval()
@@ -439,7 +483,9 @@ func evaluate(rep *vh.Report, stream, path string, dc *docCase, ups []*proxy.Ups
 	if pan != nil {
 		x := w()
 		x.Error = fmt.Sprint(pan)
-		rep.Violate(stream, dc.Index, "loader: panic", "the loader panicked instead of returning an error: "+fmt.Sprint(pan), x)
+		cls := panicInputClass(dc)
+		rep.Count(pfx+"loader_panics", 1)
+		rep.Violate(stream, dc.Index, "loader: panic input="+cls, "the loader panicked instead of returning an error ("+cls+"): "+fmt.Sprint(pan), x)
 		return
 	}
 	ref := resolveDoc(dc.YAML, dc.Cluster, dc.Vars, dc.Env, false)
@@ -648,9 +694,26 @@ func evaluate(rep *vh.Report, stream, path string, dc *docCase, ups []*proxy.Ups
 			}
 		}
 		// cookie name is global
-		rep.Count("fields_compared", 1)
-		if a.CookieName != e.Cookie {
-			report("cookie_name", "resolve: field-mismatch field=cookie_name site="+e.Site, e.Cookie, a.CookieName)
+		if e.CookieDC {
+			// `options: {cookiename: ...}` is not a documented key; neither the docs nor the property say
+			// anything about a per-upstream cookie name, so what the loader makes of it is only recorded
+			rep.Count("dontcare_fields:undocumented-key-cookiename", 1)
+			if a.CookieName != e.Cookie {
+				rep.Count("observation_undocumented_key_honoured:options.cookiename", 1)
+			}
+		} else {
+			rep.Count("fields_compared", 1)
+			if a.CookieName != e.Cookie {
+				report("cookie_name", "resolve: field-mismatch field=cookie_name site="+e.Site, e.Cookie, a.CookieName)
+			}
+		}
+		if e.UndocSkip {
+			if ok, _, _, _, _ := fieldCheck(e, "skip_auth_regex", a); !ok {
+				rep.Count("observation_undocumented_key_honoured:skipauthcompiledregex", 1)
+			}
+		}
+		if a.PassAccessToken || a.SkipAuthPreflight {
+			rep.Count("observation_undocumented_key_honoured:passaccesstoken/skipauthpreflight", 1)
 		}
 		// The known family is named precisely: the loader's upstream is, in EVERY settled option field,
 		// exactly what results when the cluster block's `options:` replaces the default block's options
@@ -782,6 +845,17 @@ func curated() []curatedDoc {
       skip_auth_regex:
         - ^/health$
 `},
+	}
+	base := "- service: wit\n  default:\n    from: wit.sso.example.com\n    to: wit.internal.example.org\n"
+	for _, m := range []struct{ name, yaml string }{
+		{"null-extra-route-entry", base + "    extra_routes:\n      -\n"},
+		{"null-service-entry", "-\n" + base},
+		{"from-without-host", "- service: wit\n  default:\n    from: /wit\n    to: wit.internal.example.org\n"},
+		{"to-without-host", "- service: wit\n  default:\n    from: wit.sso.example.com\n    to: 'http://'\n"},
+		{"undocumented-key-hmacauth", base + "    hmacauth: sha256:secret\n"},
+		{"undocumented-key-cookiename", base + "    options:\n      cookiename: other_cookie\n"},
+	} {
+		out = append(out, curatedDoc{name: m.name, cluster: "prod", env: stdEnv, yaml: m.yaml})
 	}
 	values := map[string]string{
 		"header_overrides":        "\n        X-Frame-Options: DENY",
@@ -1025,6 +1099,14 @@ func behave(rep *vh.Report, env vh.Env, i int) {
 	if r.Intn(10) < 7 || curatedCase {
 		bc.EnvGroups = []string{"grp-env-default"}
 	}
+	// every third stack also carries a rewrite route whose `to` template cannot yield a usable URL
+	rwTarget := ""
+	if i%3 == 2 {
+		rwTarget = []string{"'$1 bad.internal'", "'%zz$1'", "'$1:notaport'", "'http://[$1'", "'/$1'", "'${2}'", "\"$1\\n.internal\"", "'://$1'"}[r.Intn(8)]
+		top.items = append(top.items, mp().add("service", sc("rw")).add("default",
+			mp().add("from", sc(`'^rw--(.*)\.sso\.test$'`)).add("to", sc(rwTarget)).add("type", sc("rewrite")).
+				add("options", mp().add("allowed_groups", sq(sc("grp-rw"))).add("skip_auth_regex", sq(sc("'^/open$'"))))))
+	}
 	doc := emitDoc(top)
 	var modes []string
 	for _, s := range bc.Svcs {
@@ -1073,6 +1155,28 @@ func behave(rep *vh.Report, env vh.Env, i int) {
 		if u.MustErr != "" || u.Unknown != "" {
 			rep.Inconclusive("behavioural document invalid for the reference: " + u.MustErr + u.Unknown)
 			return
+		}
+		if u.Type == "rewrite" {
+			// the loader cannot know what the template yields; at request time an unusable target has to fail
+			// closed: no backend reached, no handler panic
+			before := ps.ErrLog.Panics()
+			rs := ps.Client.Do(sut.Req{Host: "rw--abc.sso.test", Target: "/open"})
+			hits := ps.Hits(rs.ID)
+			rep.Count("behaviour_probes", 1)
+			rep.Count("behaviour_rewrite_unusable_target_probes", 1)
+			rep.Count(fmt.Sprintf("behaviour_rewrite_unusable_target_status_%d", rs.Status), 1)
+			c := *bc
+			c.Probe, c.Host, c.Target, c.Status, c.Hit = "rewrite-unusable-target to="+rwTarget, "rw--abc.sso.test", "/open", rs.Status, len(hits) > 0
+			if len(hits) > 0 {
+				rep.Count("behaviour_backend_hits", 1)
+				rep.Violate("c14-behave", i, "behaviour: rewrite-unusable-target-reached-a-backend", "a rewrite route whose template yields no usable URL delivered the request to a backend", &c)
+			} else {
+				rep.Count("behaviour_refusals", 1)
+			}
+			if ps.ErrLog.Panics() > before {
+				rep.Violate("c14-behave", i, "behaviour: rewrite-unusable-target-handler-panic", "a rewrite route whose template yields no usable URL made the request handler panic", &c)
+			}
+			continue
 		}
 		sv := svcByName[u.Service]
 		host := u.From
